@@ -2,17 +2,29 @@
 from ..core import Family
 from .. import plevel
 from . import engine_common as ec
-TRUSTED_BASE = ec.TB
-ASSUMPTIONS = ec.ASSUME
+LP_ORACLE = ("root LP step (search/mod.rs, repaired: finding D10): modelled as an ORACLE refinement (coq/Model/LpRoot.v) -- the f64 simplex, "
+             "to_lp_problem and apply_lp_solution are NOT modelled; the step hands the engine either nothing or some store s_lp (a copy of the "
+             "variables fixed to the LP vertex), the engine searches s_lp first and falls back to the untouched root when that yields nothing. "
+             "Proved for EVERY such answer with s_lp a well-formed sub-store of the root (C04.lp_tentative_sound, minimize_lp_ok_iff_sat): the "
+             "answer is a solution of the model, `no solution` is exact, and an answer of the fallback phase is optimal. ASSUMED, not proved: "
+             "an answer of the FIRST phase is optimal only if the LP bound is a valid bound of the model that the vertex store holds the "
+             "objective to (hypothesis first_phase_optimal / lp_bound_attained), and an LP verdict `Infeasible` is still trusted by the code "
+             "(same assumption: the LP is a relaxation of the model); both are judged here by the brute-force oracle on every opt_lp_on case")
+TRUSTED_BASE = [t for t in ec.TB if "root LP step" not in t] + [
+    "the optimisation fast path is switched off in the correspondence runs through hook H5 and is NOT modelled; the root LP step is switched off "
+    "in the sequence-exact families and ON in family opt_lp_on", LP_ORACLE]
+ASSUMPTIONS = ec.ASSUME + ["opt_lp_on: the LP oracle assumption above (the vertex store is whatever apply_lp_solution produced; only the gate -- whether "
+                           "the step runs -- is compared with a model, through hook H5)"]
 RULE = ("case = propagator-level model + `min <view>` / `max <view>` (decision variables, result variables, negated/offset/scaled "
         "views); the iterating sequence must equal the model's, be strictly improving, consist of solutions, and end at the brute-force "
-        "optimum; Ok iff satisfiable. Root-LP step off (hook H5); a second family runs with the LP step ON and is judged by the same oracle (known finding D10)")
+        "optimum; Ok iff satisfiable. Root-LP step off (hook H5); family opt_lp_on runs with the LP step ON and is judged by the same oracle "
+        "(finding D10 repaired: no known class is attached to the LP step any more; the former witnesses are corpus/solve.opt_lp_on.cases)")
 def lp_on(tier, rng):
     return [c + " ; lp" for c in ec.gen_models(ec.entry_opt, 6000, 300000)(tier, rng)]
 def split_lp(model_line):
     from ..core import default_split
     m, s, cls = default_split(model_line)
-    return None, s, cls           # the LP step is not modelled: no correspondence for this family, oracle only
+    return None, s, cls           # the LP vertex is an oracle of the model (Model/LpRoot.v): no sequence correspondence for this family, brute-force oracle only
 import re
 _PLAIN = re.compile(r"^x\d+$")
 def lp_gate(case):
@@ -36,9 +48,10 @@ def lp_gate(case):
             obj = t[1] if _PLAIN.match(t[1]) else None       # max v = minimize(opposite v)
     return obj is not None and obj in lpvars and rows >= 1 and len(lpvars) >= 2
 def classify_lp(case, impl, cls):
-    # attribution: a failure is put down to finding D10 only when the gate says the root LP step runs on the
-    # UNCHANGED code for this case and the hook-H5 flag confirms that it ran
-    return cls or ("lp_root" if (lp_gate(case) and impl.endswith(" lp=1")) else None)
+    # finding D10 (class lp_root: the LP vertex fixed on every LP variable made satisfiable models unsatisfiable) is repaired:
+    # the vertex is tried first and the root is searched when it yields nothing.  No failure is attributed to the LP step any
+    # more; a failing case of this family is a VIOLATION unless the model itself lies in a class of the other families.
+    return cls
 def corr_lp(case, impl, mpart):
     # correspondence for this family = the implementation runs the LP step exactly when the gate predicts it
     return impl.endswith(" lp=1") == lp_gate(case)
